@@ -34,11 +34,15 @@ pub struct Case {
     /// load a library, unlink it, create a DIFFERENT library at the same path and map that too:
     /// two modules with the same (sanitised) path but different contents
     replaced: bool,
+    /// the target's executable: 0 the ordinary (PIE) puppet; 1 the position-dependent build (ET_EXEC at
+    /// 0x400000); 2 that build started from a copy which is unlinked afterwards; 3 ... and whose path then
+    /// holds a different file
+    exe: u8,
 }
 
 impl Case {
     fn to_json(&self) -> Value {
-        json!({"dlopen": self.dlopen, "maps": self.maps.iter().map(|m| json!([m.0, m.1, m.2, m.3])).collect::<Vec<_>>(), "deleted": self.deleted, "user": self.user, "entry_in_lib": self.entry_in_lib, "replaced": self.replaced})
+        json!({"dlopen": self.dlopen, "maps": self.maps.iter().map(|m| json!([m.0, m.1, m.2, m.3])).collect::<Vec<_>>(), "deleted": self.deleted, "user": self.user, "entry_in_lib": self.entry_in_lib, "replaced": self.replaced, "exe": self.exe})
     }
     fn from_json(v: &Value) -> Option<Case> {
         Some(Case {
@@ -48,6 +52,7 @@ impl Case {
             user: v.get("user")?.as_u64()? as u8,
             entry_in_lib: v.get("entry_in_lib").and_then(|b| b.as_bool()).unwrap_or(false),
             replaced: v.get("replaced").and_then(|b| b.as_bool()).unwrap_or(false),
+            exe: v.get("exe").and_then(|b| b.as_u64()).unwrap_or(0) as u8,
         })
     }
 }
@@ -229,11 +234,25 @@ fn read_target(pid: i32, addr: u64, len: usize) -> Vec<u8> {
 
 pub fn run_case(c: &Case) -> (Vec<(String, String)>, usize) {
     let mut fails = Vec::new();
-    let mut p = Puppet::spawn();
-    p.add_thread(Kind::Block);
     let dir = format!("/verif/target/tmp/c08_{}_{:?}", std::process::id(), std::thread::current().id()).replace(['(', ')'], "");
     let _ = std::fs::create_dir_all(&dir);
     let mut saved_content: Vec<(String, Vec<u8>)> = Vec::new();
+    let mut p = match c.exe {
+        0 => Puppet::spawn(),
+        1 => Puppet::spawn_from("/verif/target/puppet_nopie", &[], None),
+        _ => {
+            let path = format!("{dir}/exe_nopie");
+            let _ = std::fs::copy("/verif/target/puppet_nopie", &path);
+            let p = Puppet::spawn_from(&path, &[], None);
+            saved_content.push((path.clone(), std::fs::read(&path).unwrap_or_default()));
+            let _ = std::fs::remove_file(&path);
+            if c.exe == 3 {
+                let _ = std::fs::copy("/verif/target/puppet", &path);
+            }
+            p
+        }
+    };
+    p.add_thread(Kind::Block);
     for f in &c.dlopen {
         let path = format!("{FIX}/{f}");
         let _ = p.cmd(&format!("dlopen {}", mdv_core::hex(path.as_bytes())));
@@ -312,10 +331,10 @@ fn menu(thorough: bool) -> Vec<Case> {
             if !thorough && user >= 2 && l != "libfix_sha1.so" && l != "libfix_none.so" {
                 continue;
             }
-            v.push(Case { dlopen: vec![l.to_string()], maps: vec![], deleted: false, user, entry_in_lib: false, replaced: false });
+            v.push(Case { dlopen: vec![l.to_string()], maps: vec![], deleted: false, user, entry_in_lib: false, replaced: false, exe: 0 });
         }
         // all together + deleted + raw mappings
-        v.push(Case { dlopen: libs.iter().map(|s| s.to_string()).collect(), maps: vec![], deleted: true, user, entry_in_lib: false, replaced: false });
+        v.push(Case { dlopen: libs.iter().map(|s| s.to_string()).collect(), maps: vec![], deleted: true, user, entry_in_lib: false, replaced: false, exe: 0 });
     }
     let raw: Vec<(String, u64, u64, String)> = vec![
         ("libfix_sha1.so".into(), 0, 8192, "r".into()),
@@ -328,20 +347,25 @@ fn menu(thorough: bool) -> Vec<Case> {
         ("libfix_nosoname.so".into(), 4096, 4096, "r".into()),
     ];
     for m in &raw {
-        v.push(Case { dlopen: vec![], maps: vec![m.clone()], deleted: false, user: 0, entry_in_lib: false, replaced: false });
+        v.push(Case { dlopen: vec![], maps: vec![m.clone()], deleted: false, user: 0, entry_in_lib: false, replaced: false, exe: 0 });
     }
-    v.push(Case { dlopen: vec!["libfix_sha1.so".into()], maps: raw.clone(), deleted: true, user: 1, entry_in_lib: false, replaced: false });
-    v.push(Case { dlopen: vec![], maps: vec![], deleted: true, user: 0, entry_in_lib: false, replaced: false });
-    v.push(Case { dlopen: vec![], maps: vec![], deleted: false, user: 0, entry_in_lib: false, replaced: true });
-    v.push(Case { dlopen: vec!["libfix_nosoname.so".into()], maps: vec![], deleted: true, user: 1, entry_in_lib: false, replaced: true });
+    v.push(Case { dlopen: vec!["libfix_sha1.so".into()], maps: raw.clone(), deleted: true, user: 1, entry_in_lib: false, replaced: false, exe: 0 });
+    v.push(Case { dlopen: vec![], maps: vec![], deleted: true, user: 0, entry_in_lib: false, replaced: false, exe: 0 });
+    v.push(Case { dlopen: vec![], maps: vec![], deleted: false, user: 0, entry_in_lib: false, replaced: true, exe: 0 });
+    v.push(Case { dlopen: vec!["libfix_nosoname.so".into()], maps: vec![], deleted: true, user: 1, entry_in_lib: false, replaced: true, exe: 0 });
     for l in ["libfix_sha1.so", "libfix_none.so", "lib with space.so"] {
-        v.push(Case { dlopen: vec![l.to_string(), "libfix_8.so".into()], maps: vec![], deleted: false, user: 0, entry_in_lib: true, replaced: false });
+        v.push(Case { dlopen: vec![l.to_string(), "libfix_8.so".into()], maps: vec![], deleted: false, user: 0, entry_in_lib: true, replaced: false, exe: 0 });
+    }
+    // position-dependent main executable: intact, unlinked, replaced on disk
+    for exe in 1..=3u8 {
+        v.push(Case { dlopen: vec![], maps: vec![], deleted: false, user: 0, entry_in_lib: false, replaced: false, exe });
+        v.push(Case { dlopen: vec!["libfix_sha1.so".into()], maps: vec![], deleted: true, user: 1, entry_in_lib: false, replaced: false, exe });
     }
     v
 }
 
 pub fn run(ctx: &Ctx, rep: &mut Report) {
-    rep.rule = "menu: 9 fixture libraries (build id sha1 / 8 bytes / none / all-zero, with/without SONAME, names with spaces / non-ASCII / .so.N suffixes) dlopen'ed alone and together, a library unlinked after loading, a library replaced on disk by a different one at the same path with both mapped, whole-file and offset mappings of ELF / non-ELF / truncated / archive-embedded images, each under 6 user-mapping lists (none, disjoint, containing, partially overlapping, two entries in descending / ascending order); plus the puppet binary, libc, ld.so and the vDSO in every case. nontrivial = cases whose expected module list has at least 4 entries".into();
+    rep.rule = "menu: 9 fixture libraries (build id sha1 / 8 bytes / none / all-zero, with/without SONAME, names with spaces / non-ASCII / .so.N suffixes) dlopen'ed alone and together, a library unlinked after loading, a library replaced on disk by a different one at the same path with both mapped, whole-file and offset mappings of ELF / non-ELF / truncated / archive-embedded images, each under 6 user-mapping lists (none, disjoint, containing, partially overlapping, two entries in descending / ascending order); a position-dependent (ET_EXEC) main executable intact / unlinked / replaced on disk; plus the puppet binary, libc, ld.so and the vDSO in every case. nontrivial = cases whose expected module list has at least 4 entries".into();
     rep.assume("shapes whose expected treatment the statement leaves open (a non-executable mapping at a non-zero offset) are in the menu only as 'must not produce a wrong module', never as 'must be listed'");
     if let Some(case) = &ctx.replay {
         let Some(c) = Case::from_json(case) else {
